@@ -10,7 +10,7 @@ from .c02 import C
 
 def run(ctx):
     quick = ctx.tier == 'quick'
-    specs = common.select(ctx, corpus.specs(names=['lit1', 'sc1', 'bol1'] if quick else ['lit1', 'sc1', 'bol1', 'backup', 'rej1', 'ln_basic', 'tc_fixed_trail']))
+    specs = common.select(ctx, corpus.specs(names=['lit1', 'sc1', 'bol1', 'backup', 'tc_fixed_trail'] if quick else ['lit1', 'sc1', 'bol1', 'backup', 'rej1', 'ln_basic', 'tc_fixed_trail']))
     cfgs = [C('r', api='r'), C('c99', api='c99')] if quick else [C('r', api='r'), C('c99', api='c99'), C('rCfe', ['-Cfe'], api='r'), C('rB', ['-B'], api='r'), C('rarray', options=['array', 'yylmax=16'], api='r')]
     jobs = []
     for s in specs:
@@ -34,9 +34,9 @@ def run(ctx):
                 st = 'violated' if st == 'violation' else 'known-finding'
             ctx.record(name, st, engine='symbol-table', entry=s.name, config=c.name, detail='writable static objects: %s' % (shared or 'none'))
             # (2) non-interference of two instances
-            lens = [1, 2] if quick else [0, 1, 2, 3]
+            lens = [1, 2, 3] if quick else [0, 1, 2, 3, 4]
             if c.api == 'c99' and quick:
-                lens = [1]
+                lens = [1, 2]
             js, _ = E.iso_jobs(ctx, s, c, lens, witness_len=(2 if (s.name == 'lit1' and c.name == 'r') else None), timeout=(240 if quick else 1200))
             jobs += js
     ctx.run_cbmc(jobs)
